@@ -81,11 +81,17 @@ Theorem C18_basic_properties_reported_iff_different : forall p1 p2,
 Proof. exact reported_iff_differs. Qed.
 Print Assumptions C18_basic_properties_reported_iff_different.
 
+(* the bit position (compared since the fix commit) is reported exactly when it differs *)
+Theorem C18_bit_position_reported_iff_different : forall p1 p2,
+  In L_bitpos (compare_params p1 p2) <-> q_bitpos p1 <> q_bitpos p2.
+Proof. exact bitpos_reported_iff_differs. Qed.
+Print Assumptions C18_bit_position_reported_iff_different.
+
 (* a data object edited in place behind an unchanged reference is reported ("Linked DOP object") exactly when the
    objects or their units differ; apart from constant / default values nothing else is reported for equal objects *)
-Theorem C18_linked_dop_reported_iff_different : forall n t po b s i1 n1 u1 p1 e1 i2 n2 u2 p2 e2,
-  let q1 := mkQ n t po b s (QDop i1 n1 u1 p1 e1) in
-  let q2 := mkQ n t po b s (QDop i2 n2 u2 p2 e2) in
+Theorem C18_linked_dop_reported_iff_different : forall n t po b s bp i1 n1 u1 p1 e1 i2 n2 u2 p2 e2,
+  let q1 := mkQ n t po b s (QDop i1 n1 u1 p1 e1) bp in
+  let q2 := mkQ n t po b s (QDop i2 n2 u2 p2 e2) bp in
   (In L_dop (compare_params q1 q2) <-> i1 <> i2 \/ unit_same u1 u2 = false) /\
   (forall x, In x (compare_params q1 q2) -> x = L_const \/ x = L_default \/ i1 <> i2 \/ unit_same u1 u2 = false).
 Proof. exact dop_reported_iff_differs. Qed.
@@ -93,15 +99,15 @@ Print Assumptions C18_linked_dop_reported_iff_different.
 
 (* a unit modified in place behind unchanged references is reported (the behaviour before the fix commit --
    the unit was only looked at when the DOP objects themselves differed -- is the refutation below) *)
-Theorem C18_unit_edit_reported : forall n t po b s i nm a a' p e,
+Theorem C18_unit_edit_reported : forall n t po b s bp i nm a a' p e,
   u_id a <> u_id a' ->
-  In L_dop (compare_params (mkQ n t po b s (QDop i nm (Some a) p e)) (mkQ n t po b s (QDop i nm (Some a') p e))).
+  In L_dop (compare_params (mkQ n t po b s (QDop i nm (Some a) p e) bp) (mkQ n t po b s (QDop i nm (Some a') p e) bp)).
 Proof. exact unit_edit_reported. Qed.
 Print Assumptions C18_unit_edit_reported.
 
-Theorem C18_coded_constant_reported_iff_different : forall n t po b s d1 v1 d2 v2,
-  let q1 := mkQ n t po b s (QCoded d1 v1) in
-  let q2 := mkQ n t po b s (QCoded d2 v2) in
+Theorem C18_coded_constant_reported_iff_different : forall n t po b s bp d1 v1 d2 v2,
+  let q1 := mkQ n t po b s (QCoded d1 v1) bp in
+  let q2 := mkQ n t po b s (QCoded d2 v2) bp in
   (In L_dt (compare_params q1 q2) <-> d1 <> d2) /\ (In L_value (compare_params q1 q2) <-> v1 <> v2).
 Proof. exact coded_reported_iff_differs. Qed.
 Print Assumptions C18_coded_constant_reported_iff_different.
@@ -110,13 +116,14 @@ Print Assumptions C18_coded_constant_reported_iff_different.
 Theorem C18_nothing_reported_means_equal : forall p1 p2,
   compare_params p1 p2 = [] ->
   q_name p1 = q_name p2 /\ q_pos p1 = q_pos p2 /\ q_bits p1 = q_bits p2 /\ q_sem p1 = q_sem p2 /\ q_type p1 = q_type p2 /\
-  cmp_kind (q_kind p1) (q_kind p2) = [].
+  q_bitpos p1 = q_bitpos p2 /\ cmp_kind (q_kind p1) (q_kind p2) = [].
 Proof. exact nothing_reported. Qed.
 Print Assumptions C18_nothing_reported_means_equal.
 
 Example C18_parameter_example :
   let dop i := QDop i 5 None (Some 2) (XValue None) in
-  compare_params (mkQ 1 7 (Some 2) (Some 16) None (dop 11)) (mkQ 1 7 (Some 2) (Some 8) None (dop 12)) = [L_bits; L_dop] /\
-  compare_params (mkQ 1 7 (Some 2) (Some 8) None (QCoded 3 34)) (mkQ 1 7 None (Some 8) (Some 9) (QCoded 3 35)) = [L_pos; L_sem; L_value].
+  compare_params (mkQ 1 7 (Some 2) (Some 16) None (dop 11) None) (mkQ 1 7 (Some 2) (Some 8) None (dop 12) None) = [L_bits; L_dop] /\
+  compare_params (mkQ 1 7 (Some 2) (Some 8) None (QCoded 3 34) (Some 4)) (mkQ 1 7 None (Some 8) (Some 9) (QCoded 3 35) None)
+    = [L_pos; L_sem; L_bitpos; L_value].
 Proof. exact compare_example. Qed.
 Print Assumptions C18_parameter_example.
